@@ -5,7 +5,34 @@ from harness.common import Check, run_check, all_pstr
 from harness import gens as G
 
 
+def impl_history(case):
+    """one collection object: graph queries, in-place edit, the same queries again"""
+    from paulie import get_pauli_string, PauliString
+    c = get_pauli_string(case["gens"])
+    steps = []
+    for st in case["steps"]:
+        if st[0] == "append":
+            c.append(PauliString(pauli_str=st[1]))
+        elif st[0] == "remove":
+            c.remove(PauliString(pauli_str=st[1]))
+        rec = {"strings": [str(s) for s in c.get()]}
+        try:
+            rec["commutants"] = [str(s) for s in c.get_commutants()]
+            v, e, l = c.get_graph()
+            rec["edges"] = [[a, b, l.get((a, b))] for a, b in e]
+            rec["subgraphs"] = sorted(sorted(str(s) for s in sub) for sub in c.get_subgraphs())
+            rec["apair"] = c.get_anticommutation_pair()
+            cv, ce = c.get_commutator_graph()
+            rec["cedges"] = sorted(sorted([a, b]) for a, b in ce)
+        except Exception as ex:  # noqa
+            rec["exc"] = type(ex).__name__
+        steps.append(rec)
+    return {"steps": steps}
+
+
 def impl(case):
+    if case.get("op") == "history":
+        return impl_history(case)
     from paulie import get_pauli_string, non_commuting_charges
     g = case["gens"]
     c = get_pauli_string(g) if g else get_pauli_string([])
@@ -96,7 +123,50 @@ def main():
             nt.add((n, tuple(p)))
         if bad:
             ck.fail(None, "n=%d G=%s: %s" % (n, g, "; ".join(bad)[:600]), {"n": n, "gens": g, "differences": bad})
-    ck.cov["evaluations"] = len(cases)
+    # the same collection object queried, edited in place and queried again
+    hist = []
+    for _ in range(120 if ck.quick else 1200):
+        n = ck.rng.randint(1, 3)
+        g = [G.uniform(ck.rng, n) for _ in range(ck.rng.randint(1, 3))]
+        steps = [["query"]]
+        cur = list(dict.fromkeys(g))
+        for _ in range(ck.rng.randint(1, 3)):
+            if ck.rng.random() < 0.7 or len(cur) < 2:
+                x = G.uniform(ck.rng, n); steps.append(["append", x])
+                if x not in cur:
+                    cur.append(x)
+            else:
+                x = ck.rng.choice(cur); steps.append(["remove", x]); cur.remove(x)
+        hist.append({"op": "history", "gens": g, "steps": steps, "n": n})
+    hres = ck.impl("c14", hist, per_case_s=300)
+    hreq, hmap = [], []
+    for hi, (c, r) in enumerate(zip(hist, hres)):
+        for si, st in enumerate(r.get("steps", [])):
+            if st["strings"]:
+                gs = " ".join(st["strings"])
+                hreq += ["commutants %d %s" % (c["n"], gs), "agraph " + gs, "acomps " + gs, "cgraph %d %s" % (c["n"], gs)]
+                hmap.append((hi, si))
+    hans = ck.oracle(hreq, procs=8)
+    for k, (hi, si) in enumerate(hmap):
+        c, st = hist[hi], hres[hi]["steps"][si]
+        com, ag, ac, cg = hans[4 * k:4 * k + 4]
+        bad = []
+        if "exc" in st:
+            bad.append("raised " + st["exc"])
+        else:
+            if st["commutants"] != com.split():
+                bad.append("commutants answered for other strings than the collection now holds (%d vs %d)" % (len(st["commutants"]), len(com.split())))
+            if st["edges"] != [e.split(":") for e in ag.split()]:
+                bad.append("anticommutation graph edges %s, model %s" % (st["edges"], ag))
+            if st["subgraphs"] != sorted(sorted(x.split()) for x in ac.split(";") if x):
+                bad.append("components differ")
+            if st["apair"] != len(ag.split()):
+                bad.append("anticommuting pair count %s" % st["apair"])
+            if st["cedges"] != sorted(sorted(e.split(":")) for e in cg.split()[1:]):
+                bad.append("commutator graph edges differ")
+        if bad:
+            ck.fail(None, "after in-place edits %s of one collection (now %s): %s" % (c["steps"][:si + 1], st["strings"], "; ".join(bad)), {"n": c["n"], "gens": c["gens"], "steps": c["steps"][:si + 1], "differences": bad})
+    ck.cov["evaluations"] = len(cases) + len(hmap)
     ck.cov["distinct_nontrivial"] = len(nt)
     ck.cov["rule"] = ("every multiset of <=2 generators at n<=2, structured/uniform collections n<=4 (5 in thorough), mixed lengths; commutants, anticommutation graph (vertices, ordered edges, labels), "
                       "components (as sets of sets), pair counts and fraction, commutator graph (4^n vertices, unordered edge set), its components, non-commuting charges vs Model/Graph.v; "
